@@ -725,8 +725,12 @@ Inductive item_ok (cf : config) : pitem -> sitem -> text -> value -> value -> Pr
 | io_show_float : forall b b' after, finite b -> stops_float after -> float_close 6 b b' ->
     look_value cf TFloat (show_value cf (VFloat b) ++ after) = Some (VFloat b', length (show_value cf (VFloat b))) ->
     item_ok cf (PShow (VFloat b)) (SLook TFloat) after (VFloat b) (VFloat b')
-| io_num_li : forall z after, int64 z -> stops_int after ->
-    item_ok cf (PNum spec_li (VInt z)) (SNum spec_li) after (VInt z) (VInt z)
+| io_num_dec : forall sp ssp z after,
+    conv_signed (n_conv sp) = true ->
+    (n_conv ssp = 100 \/ (n_conv ssp = 105 /\ n_zero sp = false)) ->
+    in_range (n_long sp) z -> in_range (n_long ssp) z ->
+    (n_long ssp = false -> cf_int_signext cf = true) -> stops_int after ->
+    item_ok cf (PNum sp (VInt z)) (SNum ssp) after (VInt z) (VInt z)
 | io_num_float : forall sp ssp b b' after, finite b -> stops_float after ->
     float_close (float_prec sp) b b' ->
     scan_num cf ssp (print_num sp (VFloat b) ++ after) = Some (VFloat b', length (print_num sp (VFloat b))) ->
@@ -739,7 +743,7 @@ Proof.
   intros cf it si after v v' Hcf H. destruct H.
   - split; [intros t; discriminate|]. cbn [conv_reads print_item]. now apply show_value_reads.
   - split; [intros t; discriminate|]. cbn [conv_reads print_item]. assumption.
-  - split; [intros t; discriminate|]. cbn [conv_reads print_item]. now apply int_li_roundtrip.
+  - split; [intros t; discriminate|]. cbn [conv_reads print_item]. now apply int_dec_roundtrip.
   - split; [intros t; discriminate|]. cbn [conv_reads print_item]. assumption.
 Qed.
 
@@ -844,7 +848,11 @@ Fixpoint wf_seq (cf : config) (its : list pitem) (sits : list sitem) (rest : tex
        | _ => showable v /\ ends_token v (print_items cf r ++ rest)
        end) /\ wf_seq cf r sr rest
   | PNum sp (VInt z) :: r, SNum ssp :: sr =>
-      sp = spec_li /\ ssp = spec_li /\ int64 z /\ stops_int (print_items cf r ++ rest) /\ wf_seq cf r sr rest
+      conv_signed (n_conv sp) = true /\
+      (n_conv ssp = 100 \/ (n_conv ssp = 105 /\ n_zero sp = false)) /\
+      in_range (n_long sp) z /\ in_range (n_long ssp) z /\
+      (n_long ssp = false -> cf_int_signext cf = true) /\
+      stops_int (print_items cf r ++ rest) /\ wf_seq cf r sr rest
   | PNum sp (VFloat b) :: r, SNum ssp :: sr =>
       conv_is_float (n_conv sp) = true /\ plain_fspec sp /\
       conv_is_float (n_conv ssp) = true /\ conv_is_int (n_conv ssp) = false /\ n_long ssp = true /\
@@ -868,7 +876,7 @@ Proof.
       * destruct Hv as [Hf Hst]. destruct (show_float_item cf b _ Hcf Hf Hst) as [b' Hi].
         exists (VFloat b' :: vs'). now constructor.
       * exists (VStr s :: vs'). constructor; [|assumption]. now apply (io_show_exact cf (VStr s)).
-    + destruct H as (-> & -> & Hz & Hst & H). destruct (IH _ _ Hcf H) as [vs' Hs].
+    + destruct H as (G1 & G2 & G3 & G4 & G5 & Hst & H). destruct (IH _ _ Hcf H) as [vs' Hs].
       unfold values_of. cbn [flat_map app]. fold (values_of its).
       exists (VInt z :: vs'). constructor; [|assumption]. now constructor.
     + destruct H as (H1 & H2 & H3 & H4 & H5 & Hf & Hst & H). destruct (IH _ _ Hcf H) as [vs' Hs].
